@@ -67,6 +67,7 @@ class Lib:
     slice = staticmethod(L.slice)
     setitem = staticmethod(L.setitem)
     to_str = staticmethod(L.to_str)
+    concrete_items = staticmethod(lambda ip, st, it: concrete_items(ip, st, it))
     str_concat = staticmethod(L.str_concat)
 
     @staticmethod
